@@ -545,6 +545,10 @@ fn part_file_sources(ctx: &Arc<Ctx>, work: &std::path::Path) {
 			tiles.insert((z, x, y), if (x + 2 * y) % 3 == 0 { b"ocean".to_vec() } else { payload((z, x, y)) });
 		}
 	}
+	// overview tiles far away from everything the deeper levels cover (a world-wide overview above a regional extract)
+	for k in [(2u8, 3u32, 0u32), (3, 7, 0), (1, 1, 0)] {
+		tiles.insert(k, payload(k));
+	}
 	let rt0 = crate::memsource::runtime(2);
 	let mut files = vec![];
 	for cont in ct::ALL_CONT {
